@@ -13,6 +13,9 @@
 (* give different results parametrise the real inputs replayed under the map-order scheduler. *)
 (* Faults seeds design faults (no copy before a language chain, merge overwriting, merge      *)
 (* dropping): with any of them TLC must find the C07 invariants violated (model self-test).   *)
+(* Growth (DESIGN Appendix E.4 / E.5), same pattern, separate modules so that the C03/C07 configurations keep their     *)
+(* size: PipelineInputs.tla refines Load/Filter/Consolidate/Common (gating by `if`, parameters, per-input filters and    *)
+(* transformations, metadata); PipelineFiles.tla refines Emit (roots, repository and extra-file templates, disjointness). *)
 EXTENDS Naturals, Sequences, FiniteSets, TLC
 
 CONSTANTS AsCoded, Faults, Rank, FixedSched, DrawAll, Langs, InputSeqs, Cfgs
